@@ -160,19 +160,25 @@ func (s *Service) Execute(ctx context.Context, name string, args []interface{}) 
 	}
 	n := len(args)
 	var in []reflect.Value
+	f := method.Func()
+	offset := 0
 	if method.PassContext() {
 		in = make([]reflect.Value, n+1)
 		in[0] = reflect.ValueOf(ctx)
-		for i := 0; i < n; i++ {
-			in[i+1] = reflect.ValueOf(args[i])
-		}
+		offset = 1
 	} else {
 		in = make([]reflect.Value, n)
-		for i := 0; i < n; i++ {
-			in[i] = reflect.ValueOf(args[i])
+	}
+	ft := f.Type()
+	for i := 0; i < n; i++ {
+		if args[i] == nil {
+			// a nil argument (for an interface, pointer, map or slice parameter)
+			// is the zero value of the parameter's type, not the zero reflect.Value
+			in[i+offset] = reflect.Zero(parameterType(ft, i+offset))
+		} else {
+			in[i+offset] = reflect.ValueOf(args[i])
 		}
 	}
-	f := method.Func()
 	out := f.Call(in)
 	n = len(out)
 	if method.ReturnError() {
@@ -186,6 +192,16 @@ func (s *Service) Execute(ctx context.Context, name string, args []interface{}) 
 		result = append(result, out[i].Interface())
 	}
 	return
+}
+
+// parameterType returns the type of the i-th argument of a call of a function of type ft.
+func parameterType(ft reflect.Type, i int) reflect.Type {
+	if n := ft.NumIn(); ft.IsVariadic() && i >= n-1 {
+		return ft.In(n - 1).Elem()
+	} else if i < n {
+		return ft.In(i)
+	}
+	return interfaceType
 }
 
 // Use plugin handlers.
